@@ -245,8 +245,14 @@ func (e *Engine) contractFor(fn *ssa.Function) *FuncContract {
 								c.Asserts = append(c.Asserts, a)
 							}
 						}
-						c.GhostSets = append(c.GhostSets, w.GhostSets...)
-						c.GhostClrs = append(c.GhostClrs, w.GhostClrs...)
+						for _, g := range w.GhostSets {
+							g.Wild = true
+							c.GhostSets = append(c.GhostSets, g)
+						}
+						for _, g := range w.GhostClrs {
+							g.Wild = true
+							c.GhostClrs = append(c.GhostClrs, g)
+						}
 						c.Marks = append(c.Marks, w.Marks...)
 						haveR := map[string]bool{}
 						for _, r := range c.Requires {
@@ -258,6 +264,9 @@ func (e *Engine) contractFor(fn *ssa.Function) *FuncContract {
 							}
 						}
 						c.Ensures = append(c.Ensures, w.Ensures...)
+						if !c.HasMod && w.HasMod {
+							c.HasMod, c.Modifies, c.ModSrc = true, w.Modifies, w.ModSrc
+						}
 						for k, v := range w.Flags {
 							if _, has := c.Flags[k]; !has {
 								c.Flags[k] = v
